@@ -176,7 +176,7 @@ void op_guard(const Op &op)
   if (op.b) {
     dsim::op_begin("GetProtectedEpochs", 0);
     auto pr = S->mgr->GetProtectedEpochs();
-    dsim::op_end();
+    dsim::op_end_keep_buffered();  // C04 requires the pin to be visible once the call has returned
     dsim::set_alloc_tag(0);
     if (S->forwards_started != fs || fs != fd) dsim::probe(pGuardStraddledForward);
     EpochGuard &g = pr.first;
@@ -202,7 +202,7 @@ void op_guard(const Op &op)
   } else {
     dsim::op_begin("CreateEpochGuard", 0);
     EpochGuard g = S->mgr->CreateEpochGuard();
-    dsim::op_end();
+    dsim::op_end_keep_buffered();
     dsim::set_alloc_tag(0);
     if (S->forwards_started != fs || fs != fd) dsim::probe(pGuardStraddledForward);
     const size_t e = g.GetProtectedEpoch();
@@ -228,7 +228,7 @@ void op_guard_move(const Op &op)
   {
     dsim::op_begin("CreateEpochGuard", 0);
     EpochGuard g = S->mgr->CreateEpochGuard();
-    dsim::op_end();
+    dsim::op_end_keep_buffered();
     dsim::set_alloc_tag(0);
     const size_t e = g.GetProtectedEpoch();
     const size_t gi = ghost_register(e);
@@ -260,7 +260,7 @@ void op_guard_reassign(const Op &op)
   {
     dsim::op_begin("CreateEpochGuard", 0);
     EpochGuard g = S->mgr->CreateEpochGuard();
-    dsim::op_end();
+    dsim::op_end_keep_buffered();
     const size_t e = g.GetProtectedEpoch();
     const size_t gi = ghost_register(e);
     S->creates_in_flight--;
@@ -370,7 +370,7 @@ void forward_once(bool concurrent)
   dsim::set_alloc_tag(kTagForward);
   dsim::op_begin("ForwardGlobalEpoch", 0);
   S->mgr->ForwardGlobalEpoch();
-  dsim::op_end();
+  dsim::op_end_keep_buffered();  // TSO runs: the new epoch must be visible when the call returns (the code fences), min_epoch_ need not
   dsim::set_alloc_tag(0);
   S->forwards_done++;
   const size_t nodes_after = live_nodes();
@@ -876,6 +876,9 @@ void generate(Program &prog, dsim::Config &cfg, dsim::Rng &pr, dsim::Rng &cr, in
   }
   cfg.spin_bound = 3 * n + 12;
   cfg.max_steps = 200000;
+  cfg.tso = cr.chance(1, 3);  // a third of the runs: x86-TSO store buffers (DESIGN 11.8)
+  static const int kDrain[] = {1, 5, 25};
+  cfg.tso_drain_percent = kDrain[cr.below(3)];
 }
 
 std::string render(const Program &p)
